@@ -18,7 +18,6 @@ pub struct MyRSI<T, V> {
     cd: T,
     out: T,
     q_vals: VecDeque<T>,
-    last_val: T,
     oldest_val: T,
 }
 
@@ -36,7 +35,6 @@ where
             cd: T::zero(),
             out: T::zero(),
             q_vals: VecDeque::with_capacity(window_len),
-            last_val: T::zero(),
             oldest_val: T::zero(),
         }
     }
@@ -55,26 +53,27 @@ where
 
         if self.q_vals.is_empty() {
             self.oldest_val = val;
-            self.last_val = val;
         }
         if self.q_vals.len() >= self.window_len {
-            let old_val = self.q_vals.pop_front().unwrap();
-            if old_val > self.oldest_val {
-                self.cu = self.cu - (old_val - self.oldest_val);
-            } else {
-                self.cd = self.cd - (self.oldest_val - old_val);
-            }
-            self.oldest_val = old_val;
+            // the value that leaves becomes the reference for the oldest change
+            self.oldest_val = self.q_vals.pop_front().unwrap();
         }
         self.q_vals.push_back(val);
 
-        // accumulate 'closes up' and 'closes down'
-        if val > self.last_val {
-            self.cu = self.cu + val - self.last_val;
-        } else {
-            self.cd = self.cd + self.last_val - val;
+        // accumulate 'closes up' and 'closes down' over the window afresh:
+        // adding the newest and subtracting the oldest change on running sums
+        // leaves rounding residue once a large change has left the window
+        self.cu = T::zero();
+        self.cd = T::zero();
+        let mut prev = self.oldest_val;
+        for v in self.q_vals.iter() {
+            if *v > prev {
+                self.cu = self.cu + (*v - prev);
+            } else {
+                self.cd = self.cd + (prev - *v);
+            }
+            prev = *v;
         }
-        self.last_val = val;
 
         if self.cu + self.cd != T::zero() {
             self.out = (self.cu - self.cd) / (self.cu + self.cd);
